@@ -22,9 +22,10 @@ Clauses(r) ==
     <<"exactly_once", r.ended => M(r.strategy)!ExactlyOnce(o, r.lens)>>,
     <<"sequential_is_concatenation", r.strategy = "sequential" => M(r.strategy)!IsPrefixOf(o, M(r.strategy)!Concat(r.lens))>>,
     <<"interleaved_is_round_robin", r.strategy = "interleaved" => M(r.strategy)!IsPrefixOf(o, M(r.strategy)!RoundRobin(r.lens))>>,
-    <<"reproducible_from_seed", r.out = r.out2>>,
-    <<"reported_length_is_total", r.reported_len = M(r.strategy)!Total(r.lens)>>
+    <<"reproducible_from_seed", r.out = r.out2>>
     >>
+\* not part of the property (C07 does not speak about ExactSizeIterator::len): mechanism layer, DRIFT only
+Mech(r) == IF r.reported_len = M(r.strategy)!Total(r.lens) THEN <<>> ELSE <<"reported_length_is_not_the_total">>
 
 Judge(r) ==
     IF r.st = "hang"
@@ -33,7 +34,7 @@ Judge(r) ==
     THEN [why |-> <<r.st>>, drift |-> <<>>, skip |-> FALSE, nt |-> FALSE]
     ELSE LET cl == Clauses(r)
              bad == SelectSeq(cl, LAMBDA x : ~x[2])
-         IN [why |-> [k \in 1..Len(bad) |-> bad[k][1]], drift |-> <<>>, skip |-> FALSE,
+         IN [why |-> [k \in 1..Len(bad) |-> bad[k][1]], drift |-> Mech(r), skip |-> FALSE,
              \* non-trivial: at least two sources, of different lengths or one empty
              nt |-> Len(r.lens) >= 2 /\ Cardinality({r.lens[k] : k \in 1..Len(r.lens)}) >= 2]
 
